@@ -145,6 +145,8 @@ def _span(cfg: dict):
         return np.arange(2000, 2000 + cfg['L'])
     if cfg.get('span_kind') == 'str':
         return [f'p{j}' for j in range(cfg['L'])]
+    if cfg.get('span_kind') == 'dup':      # repeated labels (legal: positions, not labels, identify periods for solve_t)
+        return [2000 + (j % 2) for j in range(cfg['L'])]
     return list(range(2000, 2000 + cfg['L']))
 
 
